@@ -13,7 +13,9 @@ import minif
 from common import sx, parse_sx
 from props import c08_gen
 
-WATCHDOG_S = 8
+WATCHDOG_S = 8     # first timeout; later calls of the same run get WATCHDOG_AFTER_S (normal calls take < 0.5 s)
+WATCHDOG_AFTER_S = 3
+_timeouts = [0]
 CAP = 12          # iterations traced per loop
 
 
@@ -30,12 +32,13 @@ def real_verdict(loop):
     from psyclone.psyir.tools import DependencyTools
     dt = DependencyTools()
     old = signal.signal(signal.SIGALRM, _alarm)
-    signal.setitimer(signal.ITIMER_REAL, WATCHDOG_S)
+    signal.setitimer(signal.ITIMER_REAL, WATCHDOG_AFTER_S if _timeouts[0] else WATCHDOG_S)
     try:
         res = dt.can_loop_be_parallelised(loop, test_all_variables=True)
         msgs = sorted((int(m.code), m.var_names[0].lower()) for m in dt.get_all_messages())
         return ("ok", bool(res), msgs)
     except _Timeout:
+        _timeouts[0] += 1
         return ("timeout",)
     except Exception as err:      # the analysis refused (SymPy could not solve, unsupported LHS, ...)
         return ("raise", type(err).__name__)
@@ -217,7 +220,13 @@ def run(chk):
 
 
 def replay(payload):
-    src = payload["source"]
+    src = payload.get("source")
+    if src is None:      # a broken correspondence without a failing input: re-run the disagreeing case
+        try:
+            src = payload["broken"][0]["case"]["source"]
+        except (KeyError, IndexError, TypeError):
+            print("replay file holds no input (broken proof obligation):", payload.get("broken"))
+            return 1
     res = evaluate(src)
     print(src)
     print("real:", res.get("real"), "\nmodel:", res.get("model"))
